@@ -179,17 +179,17 @@ Definition api_rename (k dst : bytes) (now : Z) (d : db) : bool * db :=
           let dm' := match fm_get dst (idx d3) with Some x => x | None => dm end in
           let present := match fm_get dst (idx d3) with Some _ => true | None => false end in
           let dm2 := match m_val m with Some o => meta_set_value dm' o d3 | None => dm' end in
-          (* signalModifiedKey(key, dstMeta) marks the destination record modified *)
+          (* signalModifiedKey(dstKey, dstMeta) marks the destination record modified *)
           let d4 := if present then put_meta dst (meta_with_mod dm2 true) d3 else d3 in
-          (false, notify (PRename k dst) (emit (EvSignal k) (emit (EvSignal k) d4)))
+          (false, notify (PRename k dst) (emit (EvSignal dst) (emit (EvSignal k) d4)))
       | None =>
           let '(kr, d4) := alloc_key dst (exp_of m d3) d3 in
           let dm := {| m_key := kr; m_val := None; m_mod := false; m_count := 0; m_vtype := 0 |} in
           let dm2 := match m_val m with Some o => meta_set_value dm o d4 | None => dm end in
           let d5 := put_meta dst dm2 d4 in
-          (* signalModifiedKey(key, dstMeta) marks the new record modified *)
+          (* signalModifiedKey(dstKey, dstMeta) marks the new record modified *)
           let d6 := put_meta dst (meta_with_mod dm2 true) d5 in
-          (false, notify (PRename k dst) (emit (EvSignal k) (emit (EvSignal k) d6)))
+          (false, notify (PRename k dst) (emit (EvSignal dst) (emit (EvSignal k) d6)))
       end
   end.
 
@@ -206,7 +206,7 @@ Definition api_renamenx (k dst : bytes) (now : Z) (d : db) : Z * db :=
           let dm := {| m_key := kr; m_val := None; m_mod := false; m_count := 0; m_vtype := 0 |} in
           let dm2 := match m_val m with Some o => meta_set_value dm o d4 | None => dm end in
           let d5 := put_meta dst (meta_with_mod dm2 true) d4 in
-          (0, notify (PRename k dst) (emit (EvSignal k) (emit (EvSignal k) d5)))
+          (0, notify (PRename k dst) (emit (EvSignal dst) (emit (EvSignal k) d5)))
       end
   end.
 
